@@ -18,7 +18,8 @@ LEVEL_TEXT = ("Symbolic execution of the real __eq__/__hash__ code of expression
 BOUNDS = {"quick": {"pairs": "26 base objects x {identical, one leaf, one parameter (symbolic), argument order, arity, class swap, int/float spelling, variable as "
                     "name/object, compute_early flag, point coordinate order/values/names} + triples for transitivity; 11 foreign comparands",
                     "outside": "larger trees than the base list (equality is a structural recursion: covered by the node-level cases), hash VALUES (only consistency)"}}
-BOUNDS["thorough"] = BOUNDS["quick"]
+BOUNDS["thorough"] = {"pairs": "as quick, with every F1 node-lemma tree and every 6th stratified F2 tree as additional base objects (about 200 base objects x one-difference variants)",
+                      "outside": BOUNDS["quick"]["outside"]}
 ASSUMPTIONS = ["hash() of str/int/float/tuple is modelled by uninterpreted functions with congruence only (numerically equal numbers hash equal)"]
 OPTS = {"quick": {"timeout_ms": 10000}, "thorough": {"timeout_ms": 30000}}
 FOREIGN = ["None", "1", "2.5", "'x'", "()", "[]", "object()", "Point", "Partial", "ExpressionClass"]
@@ -27,8 +28,12 @@ X, Y = fam.X, fam.Y
 SYM = lambda n: ["sym", n]  # noqa: E731
 
 
-def base_exprs():
-    return [X, ["const", 2], ["Negation", X], ["Sine", X], ["NthPower", X, 2], ["NthRoot", X, 3], ["Exponential", X], ["Exponential", X, 2],
+def base_exprs(tier="quick"):
+    extra = []
+    if tier == "thorough":
+        import families as fam2
+        extra = [d for d in fam2.f1(fam2.V, "quick") + fam2.f2_quick(6, 0)[::6] if not rt.syms_of(d)]
+    return extra + [X, ["const", 2], ["Negation", X], ["Sine", X], ["NthPower", X, 2], ["NthRoot", X, 3], ["Exponential", X], ["Exponential", X, 2],
             ["Logarithm", X, 2], ["Minus", X, Y], ["Divide", X, Y], ["Power", X, Y], ["Add", X, Y], ["Add", X, Y, ["const", 1]], ["Multiply", X, Y],
             ["Multiply", X, ["Add", X, Y]], ["Add"], ["Multiply"], ["Reciprocal", ["NthPower", ["Add", X, Y], 2]]]
 
@@ -73,7 +78,7 @@ def jobs(tier, seed):
     def pair(a, b, c=None, **kw):
         js.append({"mode": "pair", "a": a, "b": b, "c": c, **kw})
 
-    for d in base_exprs():
+    for d in base_exprs(tier):
         for tag, v in variants(d):
             pair(["expr", d], ["expr", v], foreign=FOREIGN if tag == "same" else [], containers=(tag in ("same", "spelling")), tag=tag)
             if tag in ("same", "spelling", "param"):
